@@ -34,6 +34,7 @@ func cmdRegistry(args []string) int {
 	rlen := fs.Int("len", 8, "ops per random scenario")
 	shard := fs.Int("shard", 0, "shard index")
 	shards := fs.Int("shards", 1, "number of shards")
+	scripted := fs.Bool("scripted", false, "also run the scripted scenarios (shard 0)")
 	fullEach := fs.Bool("full", false, "full probe matrix at every node")
 	out := fs.String("out", ".", "output directory")
 	cfgs := fs.String("cfgs", "", "genesis configurations of the tree part (comma separated indices; empty = all)")
@@ -51,7 +52,7 @@ func cmdRegistry(args []string) int {
 	}
 	// the repository prints to stdout from the keeper; keep our stdout clean by writing results to files only
 	w := trace.Create(filepath.Join(*out, fmt.Sprintf("trace-%d.ndjson", *shard)))
-	st := misc.GenRegistry(w, misc.RegGenOpts{Seed: *seed, Depth: *depth, Random: *random, RandLen: *rlen, Shard: *shard, Shards: *shards, FullEach: *fullEach, Cfgs: cfgList})
+	st := misc.GenRegistry(w, misc.RegGenOpts{Seed: *seed, Depth: *depth, Random: *random, RandLen: *rlen, Shard: *shard, Shards: *shards, FullEach: *fullEach, Cfgs: cfgList, Scripted: *scripted})
 	w.Close()
 	trace.WriteJSON(filepath.Join(*out, fmt.Sprintf("stats-%d.json", *shard)), st)
 	return 0
